@@ -54,6 +54,14 @@ def gen_cases(tier, seed):
             c["dims"] = rng.choice([["time", "y", "x"], ["y", "x", "time"]])
             c["dask"] = rng.random() < 0.15
         add(c)
+    # structured family: V-curves whose two lowest ordinates are within 3 % (not tied): selection is sensitive
+    from .. import families
+    fgrid = [-2.0 + 0.2 * k for k in range(31)]
+    for _ in range(6 if quick else 60):
+        ys = families.find(rng, "vnear", fgrid, n_choices=(5, 6, 8, 10))
+        if ys is None:
+            continue
+        add({"variant": "v", "y": [str(v) for v in ys], "nd": "-3000", "api": "kernel", "grid": [sc.fl(g) for g in fgrid], "family": "vnear"})
     # too few valid cells
     for nv in (0, 1):
         for variant in ("v", "vp", "vplc"):
